@@ -124,7 +124,7 @@ let handle (f : string array) : string =
       show (fun () -> "ok")
         (M.verify (fun c -> fst certs.(c)) (fun c -> snd certs.(c)) hash_sum parse_octets marshal check p7)
     end
-  | "E" | "S" | "P" | "PC" | "SC" | "EC" | "K" -> "SKIP"
+  | "E" | "S" | "P" | "PC" | "SC" | "EC" | "K" | "PW" | "PL" | "KDS" -> "SKIP"
   | _ -> "BADCASE"
 
 let () = run_file Sys.argv.(1) handle
